@@ -31,6 +31,7 @@ KANI = {
         host='crates/cairo-lang-casm/src/assembler.rs',
         harness='kani/cairo-lang-casm/c16_encode.rs',
         props={'C16'},
+        pair='n_c16_shapes',
         functions=[
             ('crates/cairo-lang-casm/src/assembler.rs', 'impl Instruction', 'assemble'),
             ('crates/cairo-lang-casm/src/assembler.rs', 'impl ResOperand', 'to_res_description'),
@@ -52,7 +53,16 @@ KANI = {
     ),
 }
 
-NATIVE = {}
+NATIVE = {
+    'n_c16_shapes': dict(
+        crate='cairo-lang-casm',
+        host='crates/cairo-lang-casm/src/encoder.rs',
+        harness='native/cairo-lang-casm/n_c16_shapes.rs',
+        props={'C16'},
+        bound='offsets {-32768,-32767,-2,-1,0,1,2,32766,32767}+6 seeded, both registers, every instruction shape, 4 immediates, 3 machine states',
+        functions=[('crates/cairo-lang-casm/src/encoder.rs', 'impl InstructionRepr', 'encode'), ('crates/cairo-lang-casm/src/assembler.rs', 'impl Instruction', 'assemble')],
+    ),
+}
 
 PROPS = {
     'C16': dict(
